@@ -184,10 +184,14 @@ type DocOpts struct {
 	StrLen   int
 	KeyPool  []string // decoded keys drawn from here when non-empty (else random)
 	DupKeys  bool     // allow duplicate keys
+	RootContainer bool // the root is an object or array whenever Depth > 0
 }
 
 // Value draws a JSON value tree. Spans are filled in by Print.
 func Value(t *rapid.T, o DocOpts, label string) *ref.Value {
+	if o.RootContainer && o.Depth > 0 {
+		return valueKind(t, o, o.Depth, label, 6+rapid.IntRange(0, 2).Draw(t, label+"RootKind"))
+	}
 	return value(t, o, o.Depth, label)
 }
 
@@ -196,7 +200,11 @@ func value(t *rapid.T, o DocOpts, depth int, label string) *ref.Value {
 	if depth <= 0 {
 		max = 5
 	}
-	switch rapid.IntRange(0, max).Draw(t, label+"Kind") {
+	return valueKind(t, o, depth, label, rapid.IntRange(0, max).Draw(t, label+"Kind"))
+}
+
+func valueKind(t *rapid.T, o DocOpts, depth int, label string, kind int) *ref.Value {
+	switch kind {
 	case 0:
 		return &ref.Value{Kind: ref.KNull, Tok: "null"}
 	case 1:
